@@ -125,7 +125,7 @@ def run(tier, seed, replay=None):
     # the model takes the datagram as go-pfcp decodes it, so it is evaluated on mutated and garbage datagrams alike
     sub = list(zip([c[1] for c in cases], obs))
     rng.shuffle(sub)
-    model_correspondence(ck, sub, limit=(700 if tier == "quick" else 6000), name="C01")
+    model_correspondence(ck, sub, limit=(700 if tier == "quick" else 6000), name="C01", binary=binary)
     agg = {}
     for k, v in dist.items():
         kk = k.split("/")[0] + "/" + k.split("/")[1] + ":" + k.split(":")[-1]
